@@ -14,7 +14,7 @@ EXPLANATION = (
     "R4 (recycled prefix counts only elements that died): in a body that kills a batch parameter in a loop, a recycle site fed by the "
     "whole batch is unreachable from the rejection edge of the aliveness test, and a recycle site fed by a bounded part of the batch (range / take / "
     "split_at) has an exclusive bound that is the loop's enumerate() counter of the rejected element, or a local all of whose non-constant "
-    "assignments happen after the element's death within the iteration. On the tree before fix fbc41d8 R1 reports Allocator::kill: path die -> loop head -> is_alive false -> return Err bypasses the extend."
+    "assignments happen after the element's death within the iteration (or, on every reaching definition, a counter in step with the loop / the batch's length). R5 (the free list takes all it is handed): in every growing method of the free list the data reaching the vector's growth call is the method's own parameter, untouched by selective adaptors (filter / take / skip / dedup ..), the growth lies on every path, and inside a loop every item is pushed. On the tree before fix fbc41d8 R1 reports Allocator::kill: path die -> loop head -> is_alive false -> return Err bypasses the extend."
 )
 LEVEL_TEXT = ("All CFG paths of the allocator's generic MIR: wherever an index's alive bit is cleared, every path to a normal return pushes onto "
               "the free list (this pairing rule found the genuine defect F1, fixed in fbc41d8), and the fresh-index counter is only touched in "
